@@ -193,6 +193,24 @@ var scenarios = []schedrig.Scenario{
 		w.Until(func() bool { return w.Got[len(w.Got)-1] == "syncfunc" })
 		w.Vx.Close()
 	}},
+	{Name: "spinner-with-full-queue", Queue: 2, Body: func(w *schedrig.World) {
+		// the spinner ticks into a queue that other posters keep full while the application draws it
+		sp := spinner.New(w.Vx, 100*time.Millisecond)
+		sp.Start()
+		schedrig.Poster(w, "A", 3)
+		for i := 0; i < 40 && !(w.Seen("A3") && w.Seen("redraw")); i++ {
+			if _, ok := w.Next(); !ok {
+				break
+			}
+			sp.Draw(w.Vx.Window())
+		}
+		if !w.Seen("A3") {
+			w.Failf("lost-event", "blocking posts not delivered: %v", w.Got)
+		}
+		sp.Stop()
+		w.Until(func() bool { return w.Got[len(w.Got)-1] == "syncfunc" })
+		w.Vx.Close()
+	}},
 	{Name: "sigwinch", Queue: 8, Body: func(w *schedrig.World) {
 		vsched.AddEnv("SIGWINCH", true, func() bool { return true }, func() {
 			w.T.Resize(30, 8)
@@ -205,5 +223,5 @@ var scenarios = []schedrig.Scenario{
 }
 
 func main() {
-	schedrig.Main("C10", scenarios, "posting goroutines with a 2-slot and a 16-slot queue, SyncFunc, Resize, typed input, lone ESC around the timer, rendering against input, CursorPosition (once, twice, unanswered then F3) and ClipboardPop with replies early/late/never, a colour query that is never answered, Suspend/Resume plain / with ESC pending / with a full queue, Close with a full queue, SIGWINCH, SIGTERM, spinner widget")
+	schedrig.Main("C10", scenarios, "posting goroutines with a 2-slot and a 16-slot queue, SyncFunc, Resize, typed input, lone ESC around the timer, rendering against input, CursorPosition (once, twice, unanswered then F3) and ClipboardPop with replies early/late/never, a colour query that is never answered, Suspend/Resume plain / with ESC pending / with a full queue, Close with a full queue, SIGWINCH, SIGTERM, spinner widget (also ticking into a full queue)")
 }
